@@ -39,9 +39,15 @@ def variant(rng, m):
     r = rng.random()
     if r < 0.4:
         return h, True
-    if r < 0.7:  # add a useless state
+    if r < 0.7:  # add a useless state (half of the time on a symbol the original never mentions)
         k = max(F.states_of(h) + [0]) + 1
-        h["arcs"].append([k, 0, k, "1/2"])
+        if rng.random() < 0.5:
+            h["arcs"].append([k, 0, k, "1/2"])
+        else:
+            h["nT"] = 3
+            h["arcs"].append([k, 2, k, "1/2"])
+            if h["init"] and rng.random() < 0.5:
+                h["arcs"].append([h["init"][0][0], 2, k, "1/4"])   # reachable, but dead
         return h, True
     for key in ("arcs", "final", "init"):
         if h[key]:
@@ -130,6 +136,7 @@ def run(ctx):
     for _ in range(n):
         a = gen(ctx.rng)
         b, same = variant(ctx.rng, a) if ctx.rng.random() < 0.7 else (gen(ctx.rng), None)
+        a["nT"] = b["nT"] = max(a["nT"], b["nT"])
         if ctx.rng.random() < 0.3 and a["init"] and a["final"]:
             # the second automaton additionally reads a symbol that does not occur in the first one (or vice versa)
             a["nT"] = b["nT"] = 3
